@@ -32,7 +32,7 @@ func (c16) NumCases(tier string) int {
 	if tier == "thorough" {
 		return c16Heavy(tier) + 400_000
 	}
-	return c16Heavy(tier) + 6_000
+	return c16Heavy(tier) + 5_000
 }
 
 func (c16) Describe() CheckInfo {
@@ -186,9 +186,35 @@ func (c16) Gen(env *Env, seed uint64, tier string, i int) *Case {
 // c16Inputs turns the world into one with a per-file or per-path input
 // failure at a random position.
 func c16Inputs(c *Case, r *world.PRNG) {
-	kind := r.Pick([]string{"misfit", "missing-path", "unreadable-patch", "unreadable-target", "missing-list-member", "unparseable", "unparseable-patch", "dir-unreadable", "rewrite-error", "rewrite-error"})
+	kind := r.Pick([]string{"huge-patch", "many-unparseable", "misfit", "missing-path", "unreadable-patch", "unreadable-target", "missing-list-member", "unparseable", "unparseable-patch", "dir-unreadable", "rewrite-error", "rewrite-error"})
 	c.Extra["input_failure"] = kind
 	switch kind {
+	case "huge-patch":
+		// more than a megabyte of patch: a long description in front of the one
+		// change that matters. Nothing about it fails; the file must be patched.
+		var sb strings.Builder
+		if r.Chance(1, 2) {
+			for k := 0; sb.Len() < 1_100_000; k++ {
+				fmt.Fprintf(&sb, "# %05d this change is described at great length, line after line after line\n", k)
+			}
+		} else {
+			// 1024 changes of exactly 1024 bytes each: the first megabyte is a
+			// well-formed patch of its own
+			for k := 0; k < 1024; k++ {
+				name := fmt.Sprintf("vfF%04d%s", k, strings.Repeat("x", 498))
+				fmt.Fprintf(&sb, "@@\n@@\n-%s()\n+%sy()\n", name, name[:504])
+			}
+		}
+		sb.WriteString("@@\n@@\n-vfHugeOld()\n+vfHugeNew()\n")
+		c.AddPatch("huge.patch", "p", []byte(sb.String()), nil, nil)
+		p := c.AddFile("zz_huge_target.go", []byte("package sample\n\nfunc h() {\n\tvfHugeOld()\n}\n"), "match", nil, "huge-patch")
+		c.Targets = append(c.Targets, strings.TrimPrefix(p, ProjDir+"/"))
+		c.Flags.Diff, c.Flags.Print = false, false
+	case "many-unparseable":
+		for k := 0; k < 12; k++ {
+			c.AddFile(fmt.Sprintf("bad/e%02d.go", k), UnparseableFile(r), "unparseable", nil, "")
+		}
+		c.Targets = []string{"."}
 	case "unparseable":
 		c.AddFile(fmt.Sprintf("%sbadx.go", r.Pick([]string{"", "a/", "zz/", OddDir(r)})), UnparseableFile(r), "unparseable", nil, "")
 		c.Targets = []string{"."}
@@ -806,6 +832,12 @@ func c16EvalInputs(env *Env, c *Case) []Violation {
 	}
 	init := c.InitialState()
 	r := env.Run(c.Spec)
+	if r.Outcome == OutCrash {
+		// a failing input must be REPORTED: a traceback names neither path nor cause,
+		// drops what was collected for earlier files and leaves the rest unprocessed
+		add("reported", "crash-instead-of-diagnostic", fmt.Sprintf("a run containing a %s ended in a panic instead of a diagnostic: %s\n%s", kind, r.Panic, clip(r.Stack, 900)))
+		return vs
+	}
 	if r.Outcome != OutExit {
 		env.Probe("run-did-not-exit")
 		return nil
@@ -813,7 +845,7 @@ func c16EvalInputs(env *Env, c *Case) []Violation {
 	switch kind {
 	case "rewrite-error":
 		env.Probe("rewrite-error-target")
-	case "unparseable":
+	case "unparseable", "many-unparseable":
 		env.Probe("unparseable-target")
 	case "misfit":
 		env.Probe("misfit-target")
@@ -822,12 +854,20 @@ func c16EvalInputs(env *Env, c *Case) []Violation {
 	}
 	env.Seen("inputs|" + kind + "|" + c.Flags.String() + "|" + fmt.Sprint(len(c.Files)))
 	stderr := string(r.Stderr)
+	if kind == "huge-patch" {
+		env.Probe("patch-larger-than-a-megabyte")
+		g := FindState(r.Final, ProjDir+"/zz_huge_target.go")
+		if r.Exit == 0 && (g == nil || !bytes.Contains(g.Data, []byte("vfHugeNew()"))) {
+			add("exit-status", "zero-but-unpatched", fmt.Sprintf("exit status 0 but the change at the end of a %d-byte patch was not applied to zz_huge_target.go", len(c.Patches[len(c.Patches)-1].Data)))
+		}
+		return vs
+	}
 	if r.Exit == 0 {
 		add("exit-status", "zero", fmt.Sprintf("exit status 0 although the run contained a %s; stderr %q", kind, clip(stderr, 300)))
 	}
 	// which path must be named, and with which cause
 	switch kind {
-	case "unparseable", "misfit", "rewrite-error":
+	case "unparseable", "many-unparseable", "misfit", "rewrite-error":
 		for _, f := range c.Files {
 			if f.Role != "unparseable" && f.Role != "misfit" && f.Role != "rewrite-error" {
 				continue
@@ -872,7 +912,7 @@ func c16EvalInputs(env *Env, c *Case) []Violation {
 	// same world without the failing element
 	ref := c.Clone()
 	switch kind {
-	case "unparseable", "misfit", "rewrite-error":
+	case "unparseable", "many-unparseable", "misfit", "rewrite-error":
 		for _, f := range c.Files {
 			if f.Role == "unparseable" || f.Role == "misfit" || f.Role == "rewrite-error" {
 				ref.DropFile(f.Path)
